@@ -121,7 +121,8 @@ def c18_extra(cases, verdicts):
 
 
 PROP = dict(
-    proof_modules=["VrpProofs.C18"], model_modules=["VrpModel.C18"], drv="drv_c18", bin="c18",
+    proof_modules=["VrpProofs.C18", "VrpProofs.C18.Slot", "VrpProofs.C18.Select", "VrpProofs.C18.Reward", "VrpProofs.C18.Termination",
+                   "VrpProofs.C18.Sample", "VrpProofs.C18.Period", "VrpProofs.C18.Remedian"], model_modules=["VrpModel.C18"], drv="drv_c18", bin="c18",
     compare=c18_compare, nontrivial=c18_nontrivial, extra_evidence=c18_extra,
     rule="slot: history with >= 10 updates and >= 2 distinct rewards; argmax: ties present; weighted: >= 2 distinct weights; "
          "reward: non-zero base reward; maxgen: 0 < generation, limit > 0; composite: >= 2 criteria; target: fitness differs from "
